@@ -761,6 +761,24 @@ def mutate_response(rng, q, forge=None):
     elif kind == "tc_forged":
         flags |= 0x200
         mid = (mid + 1) % 65536
+    if forge is None and rng.random() < 0.25:
+        # a second, independent alteration (e.g. an error rcode together with a foreign question)
+        k2 = rng.choice(["rcode", "rcode", "qname", "qtype", "qextra", "qempty", "id", "opcode"])
+        if k2 == "rcode":
+            flags = (flags & ~0xF) | rng.choice([1, 2, 4, 5, 3])
+        elif k2 == "qname" and qs:
+            qs[0][0] = rng.choice([n for n in NAMES if canon_qs([[n, 0, 0]]) != canon_qs([[qs[0][0], 0, 0]])])
+        elif k2 == "qtype" and qs:
+            qs[0][2] = qs[0][2] % 250 + 1
+        elif k2 == "qextra":
+            qs.append([rng.choice(NAMES), 1, 16])
+        elif k2 == "qempty":
+            qs = []
+        elif k2 == "id":
+            mid = (mid + 1) % 65536
+        elif k2 == "opcode":
+            flags ^= 0x0800
+        kind += "+" + k2
     if rng.random() < 0.08:
         flags |= 0x200
     if opt is None and rng.random() < 0.15:
@@ -772,7 +790,7 @@ def gen_dgram(rng, q, tag):
     mid, flags, qs, opt, kind = mutate_response(rng, q)
     body = rng.choice(BODIES)
     trailing = bytes(rng.randrange(256) for _ in range(rng.choice([0, 0, 0, 0, 1, 3])))
-    nans = rng.choice([0, 1, 1, 2]) if rng.random() < 0.97 else rng.choice([40, 150])  # now and then a large datagram
+    nans = rng.choice([0, 1, 1, 2]) if rng.random() < 0.94 else rng.choice([40, 150])  # now and then a large datagram
     wire, pabs = build_dgram(mid, flags, qs, body, nans, opt, trailing, tag)
     return wire, pabs, kind + "/" + body
 
@@ -881,6 +899,21 @@ def cases(ctx):
         mid, flags, qs, opt, kind = mutate_response(rng, q)
         ctx.count("isresp:" + kind)
         yield "isresp", [1, q, [mid, flags, opt or 0, qs]]
+    # ---- is_response: small scope, exhaustively: every response opcode x rcode 0..6 (x extended
+    #      rcode bit) x question same / empty / other / superset, for a QUERY and an UPDATE query;
+    #      plus QR clear and foreign id for each opcode
+    n0 = [b"www", b"example", b""]
+    for qop, qq in ((0, [[n0, 1, 1]]), (5, [[[b"example", b""], 1, 6]])):
+        q = [0x2222, (qop << 11) | 0x100, 0, qq]
+        variants = [qq, [], [[[b"other", b""], qq[0][1], qq[0][2]]], qq + [[[b"x", b""], 1, 16]]]
+        for rop in range(16):
+            base = 0x8000 | (rop << 11)
+            yield "isresp_exh", [1, q, [0x2222, base & 0x7FFF, 0, qq]]
+            yield "isresp_exh", [1, q, [0x2223, base, 0, qq]]
+            for rc in range(7):
+                for ext in (0, 1 << 24):
+                    for v in variants:
+                        yield "isresp_exh", [1, q, [0x2222, base | rc, ext, v]]
     # ---- _matches_destination
     for _ in range(ctx.n(200, 4000)):
         af = rng.choice([socket.AF_INET, socket.AF_INET, socket.AF_INET6, 99])
@@ -889,6 +922,14 @@ def cases(ctx):
         if d is not None and rng.random() < 0.5:
             f = mk_addr(rng.choice([d[3].decode(), d[3].decode().upper()]), rng.choice([53, 53, 54]), 0, rng.choice([0, 0, 0, 3]))
         yield "matchdest", [2, af, f, d, rng.randrange(2)]
+    # ---- _matches_destination: multicast boundaries, systematically
+    bounds = ["223.255.255.255", "224.0.0.0", "239.255.255.255", "240.0.0.0", "ff00::1", "feff::1", "ff02::fb", "10.0.0.53", "2001:db8::53"]
+    for dt_ in bounds:
+        for ft in (dt_, "10.9.9.9", "2001:db8::99"):
+            for fport in (53, 54):
+                for iu in (0, 1):
+                    af = socket.AF_INET6 if ":" in dt_ else socket.AF_INET
+                    yield "matchdest_bound", [2, af, mk_addr(ft, fport), mk_addr(dt_, 53), iu]
     # ---- from_wire option handling (ties the by-construction description of datagrams to from_wire)
     for i in range(ctx.n(250, 2500)):
         q = gen_query(rng)
@@ -997,6 +1038,7 @@ def cases(ctx):
         qwire = message_of_abs(q).to_wire()
         yield "tcp", [9, q, qwire, timeout, rng.randrange(2), wevs, stream, revs, [[x, y] for x, y in tab.items()], rng.choice([0, 500])]
     yield from udp_exhaustive(ctx)
+    yield from big_dgram_cases(ctx, rng)
     yield from fallback_cases(ctx, rng)
     yield from tsig_cases(ctx, rng)
 
@@ -1027,6 +1069,18 @@ def udp_exhaustive(ctx):
     ctx.notes["exhaustive_udp"] = f"all {n} scripts of length <= {L} over an 8-event alphabet x all 32 option combinations x sync/async"
 
 
+def big_dgram_cases(ctx, rng):
+    """a genuine reply larger than the classic 512 octets: the receive buffer must take it whole"""
+    for i in range(ctx.n(4, 20)):
+        q = gen_query(rng)
+        while (q[1] >> 11) & 15 == 5 or not q[3]:
+            q = gen_query(rng)
+        dest = mk_addr("10.0.0.53", 53)
+        wire, pabs = build_dgram(q[0], 0x8000 | (q[1] & 0x7900), q[3], "ok", rng.choice([30, 60, 150]), None, b"", i)
+        qwire = message_of_abs(q).to_wire()
+        yield "udp_big", [5, q, qwire, dest, 5, socket.AF_INET, rng.sample(OPTS, 4), [], [[wire, pabs]], [[0, wire, dest]], 0]
+
+
 def fallback_cases(ctx, rng):
     for i in range(ctx.n(120, 1000)):
         q, dest, evs, tab, v6 = gen_udp_script(ctx, rng, 5)
@@ -1041,6 +1095,8 @@ def fallback_cases(ctx, rng):
             tabd[wire] = pabs
             evs = evs + [[0, wire, good]]
         _, w, a = small_msg(rng, q, rng.choice(["genuine", "genuine", "genuine", "id", "tc", None]))
+        if rng.random() < 0.35 and a[2] is None and not a[0]:
+            w, a = w + b"\x00\x01", [a[0], a[1], a[2], 1]  # trailing octets: ignore_trailing must reach tcp()
         tabd[w] = a
         stream = struct.pack("!H", len(w)) + w
         if rng.random() < 0.1:
@@ -1258,6 +1314,42 @@ def impl1(case):
     raise ValueError("unknown op")
 
 
+def extra(ctx):
+    """send_tcp / send_udp given a Message object (not bytes): what reaches the socket must be the
+    message's own wire form, length-prefixed for TCP - under fragmented sends, sync and async."""
+    rng = ctx.rng
+    F = []
+    n = 0
+    for i in range(ctx.n(60, 600)):
+        q = gen_query(rng)
+        m = message_of_abs(q)
+        if rng.random() < 0.5:
+            m.flags |= dns.flags.QR
+            owner = m.question[0].name if m.question else dns.name.root
+            m.answer.append(dns.rrset.from_text(owner, 300, "IN", "A", "10.0.0.%d" % rng.randrange(1, 250)))
+        wire = m.to_wire()
+        wevs = sprinkle(rng, [[0, rng.choice([1, 2, 3, 7, 1000])] for _ in range(rng.randrange(8))], "w", 0.1)
+        wevs = [e for e in wevs if e[1] is not None]
+        dest = ("10.0.0.53", 53)
+        for fl in (0, 1):
+            CLOCK.now = 0
+            ts = (TSock if fl == 0 else ATSock)(b"", [], wevs)
+            res, err = _call(fl, lambda: dns.query.send_tcp(ts, m, None), lambda: dns.asyncquery.send_tcp(ts, m, None))
+            n += 1
+            if err is not None or ts.sent != struct.pack("!H", len(wire)) + wire or res[0] != len(wire) + 2:
+                F.append({"kind": "send_tcp_message", "what": "send_tcp(Message) did not put the length-prefixed wire form of the message on the stream", "sig": "send_tcp_message", "flavour": ("sync", "async")[fl], "case": [q, wevs], "impl": [err, ts.sent, wire]})
+            us = (USock if fl == 0 else AUSock)(socket.AF_INET, [], [])
+            res, err = _call(fl, lambda: dns.query.send_udp(us, m, dest, None), lambda: dns.asyncquery.send_udp(us, m, dest, None))
+            n += 1
+            if err is not None or us.sent != [(wire, dest)] or res[0] != len(wire):
+                F.append({"kind": "send_udp_message", "what": "send_udp(Message) did not send the wire form of the message to the destination", "sig": "send_udp_message", "flavour": ("sync", "async")[fl], "case": [q], "impl": [err, us.sent, wire]})
+        if len(F) > 4:
+            break
+    ctx.notes["extra_evaluations"] = ctx.notes.get("extra_evaluations", 0) + n
+    ctx.notes["extra_nontrivial"] = ctx.notes.get("extra_nontrivial", 0) + n
+    return F
+
+
 # ------------------------------------------------------------------ oracle (property text on implementation outputs)
 
 
@@ -1388,6 +1480,8 @@ def oracle1(ctx, kind, case, out, flavour):
         s = stream_of(stream)
         t = {stream_of(w): a for w, a in tab}
         if isinstance(out, Err):
+            if out.code == 6 and it:
+                fail("TrailingJunk raised although ignore_trailing was set")
             return F
         wire, m, tm, sent, rest = out
         if timeout is not None and not (tm == 0 or tm < timeout):
@@ -1407,6 +1501,8 @@ def oracle1(ctx, kind, case, out, flavour):
     elif op == 10:
         _, fl, q, qwire, where, timeout, af, o, tab, evs, wevs, stream, revs, now = case
         if isinstance(out, Err):
+            if out.code == 6 and o[2]:
+                fail("TrailingJunk raised although ignore_trailing was set")
             return F
         used, wire, m, tm = out
         t = {stream_of(w): a for w, a in tab}
@@ -1488,6 +1584,19 @@ def oracle_udp(kind, case, out, fail):
                 fail("raised a different error than configured")
         if code == 1 and (timeout if case[0] == 5 else exp) is None:
             fail("Timeout without a deadline")
+        elif code == 1:
+            deadline = (now + timeout) if case[0] == 5 else exp
+            waits = [e[1] for e in (sevs if case[0] == 5 else []) if e[0] == 1]
+            waits += [e[1] for e in evs[:consumed] if e[0] == 1]
+            t = now
+            reached = consumed >= len(evs) and not any(e[0] == 0 for e in evs[consumed:])
+            for d in waits:
+                if d is None or deadline - t <= 0 or d >= deadline - t:
+                    reached = True
+                    break
+                t += d
+            if not reached:
+                fail("Timeout raised although the deadline had not been reached")
         return []
     # a message was returned
     if case[0] == 5 and timeout is not None and not (out[3] == 0 or out[3] < timeout):
